@@ -15,7 +15,7 @@ import os
 from . import common, ptrace, tlc
 
 PID = "C12"
-PRIORS = ["none", "good", "bak", "tmp", "both", "symlink"]
+PRIORS = ["none", "good", "bak", "tmp", "both", "symlink", "tmpfull"]
 
 
 def count_ops(ext, split, prior):
@@ -42,6 +42,14 @@ def _build_prior(d, prior):
     if prior in ("tmp", "both"):
         d.mutate()
         d.save(("fail", 2))                # a write fails: a stale, partial temp file stays behind
+    if prior == "tmpfull":
+        # a stale temp file that is COMPLETE and LONGER than what the next save writes: a save of a state with a long sketch
+        # name fails at its first rename (after the temp file was written and closed), then the name becomes short again
+        d.mutate()
+        _, n2 = d.save()
+        d.mutate(lines=["1;255;0;0;17;2.0\n", "1;255;3;0;11;" + "L" * 400 + "\n"])
+        d.save(("fail", n2 - 3))
+        d.mutate(lines=["1;255;3;0;11;s\n"])
 
 
 def scenario(args):
@@ -82,11 +90,16 @@ def run(tier):
         tlc.must_ok(r, cfgname)
         rep.add_tlc(cfgname, r)
     jobs = []
-    priors = PRIORS if tier == "thorough" else ["none", "good", "both", "symlink"]
+    priors = PRIORS if tier == "thorough" else ["none", "good", "both", "symlink", "tmpfull"]
     for ext, splits in (("json", [0]), ("pickle", [0, 48] if tier == "quick" else [0, 16, 48])):
         for split in splits:
             for prior in priors:
                 n = count_ops(ext, split, prior)
+                if n < 4:
+                    # the fault-free save did nothing the shim can see (on the unchanged code: never).  Whatever the library
+                    # does instead, this check would explore nothing - which must not read as "held"
+                    raise tlc.MachineryError(f"the fault-free save ({ext}, prior {prior}) performs {n} observable file operations "
+                                             "on the shim: the save path uses something the shim does not model")
                 step = 1 if (tier == "thorough" or ext == "pickle") else 1
                 for k in range(0, n, step):
                     for kind in ("fail", "crash-keep", "crash-lose"):
